@@ -13,17 +13,23 @@ import vlib
 PID = "C07"
 
 ALL_MUTS = ["trunc_before", "trunc_before_fix", "trunc_inside", "trunc_inside_fix", "len_0", "len_m1", "len_p1",
-            "len_max", "count_0", "count_p1", "count_max", "tag_unknown", "dup", "dup_fill", "dup_fill_empty", "empty"]
+            "len_max", "count_0", "count_p1", "count_max", "tag_unknown", "val_0", "val_max", "dup", "dup_fill", "dup_fill_empty", "empty"]
 
 DECODERS = ["rtp", "rtcp", "stun", "dtls_record", "dtls_hsmsg", "dtls_clienthello", "dtls_serverhello", "dtls_hvr",
             "dtls_ske", "dtls_cert", "dtls_cke", "dtls_finished", "dcep", "sdp", "candidate"]
 
 # groups of entry points run as separate TLC + harness passes (label, entries, MaxFeeds, shards)
-LIVE = ["turn_udp", "turn_tcp"]
+# live endpoints, grouped so that each TLC emission run stays short
+LIVE_ICE = ["turn_udp", "turn_tcp"]
+LIVE_DTLS = ["dtls_server", "dtls_client"]
+LIVE_SCTP = ["sctp"]
+LIVE_PC = ["pc_sdp", "pc_candidate"]
 
 TIERS = {
-    "quick": [("decoders", DECODERS, 1, 4), ("live", LIVE, 1, 8)],
-    "thorough": [("decoders", DECODERS, 1, 8), ("live", LIVE, 1, 8)],
+    "quick": [("decoders", DECODERS, 1, 4), ("ice", LIVE_ICE, 1, 8), ("dtls", LIVE_DTLS, 1, 8), ("sctp", LIVE_SCTP, 1, 8),
+              ("pc", LIVE_PC, 1, 8)],
+    "thorough": [("decoders", DECODERS, 1, 8), ("ice", LIVE_ICE, 1, 8), ("dtls", LIVE_DTLS, 1, 8), ("sctp", LIVE_SCTP, 1, 8),
+                 ("pc", LIVE_PC, 1, 8)],
 }
 VARIANTS = {"quick": 2, "thorough": 8}
 
